@@ -17,6 +17,9 @@ abstract cluster with the SAME effect on every node's set:
   IS applied — it is listed by the difference, fetched from the peer's store, and passes the
   `will_apply` filter of its half, also the one evaluated after the other half has been applied).
 
+* `xrun_refines` — every admissible RUN of the executable model is matched by an admissible run of
+  the abstract cluster with equal sets at every node.
+
 So the conclusion of `convergence_na` transfers to the executable model: the sets it computes are
 the sets of an admissible abstract run.  Hypotheses: storage works at the acting node (a failing
 storage call leaves the set untouched: a stutter, `Props/C02.lean`), and the peer's store agrees
@@ -490,5 +493,105 @@ theorem applyAt_refines (H : List Op) (c : Cluster) (a : Cl) (hs : ∀ x, (a x).
       simp only [if_true, requestOps, hs x, List.map_map]
       rfl
     · simp [hx, hs x]
+
+
+/-! ### Runs -/
+
+/-- A step of the executable cluster model that can change a replicated set. -/
+inductive XStep where
+  | request (i src : Nat) (iss : Issued)        -- a request handled at node `i` on source `src`
+  | exchange (j i : Nat) (removalsFirst : Bool) -- node `j` repairs from node `i`
+
+def xstep (c : Cluster) : XStep → Cluster
+  | .request i src iss => (applyAt c i src iss).1
+  | .exchange j i rf => (repair c j i rf).1
+
+def xrun (c : Cluster) (steps : List XStep) : Cluster := steps.foldl xstep c
+
+/-- The step happens under the conditions of the refinement theorems: storage works at the acting
+node, requests carry operations of the history, the peer of an exchange has a store that agrees with
+its set. -/
+def Admissible (H : List Op) (c : Cluster) : XStep → Prop
+  | .request i _ iss => i < c.nodes.length ∧ (getNode c i).failNext = false ∧ ∀ o ∈ carried iss, o ∈ H
+  | .exchange j i _ => j < c.nodes.length ∧ (getNode c j).failNext = false ∧ j ≠ i ∧ Agree (getNode c i).ks
+
+def AdmissibleRun (H : List Op) : Cluster → List XStep → Prop
+  | _, [] => True
+  | c, s :: rest => Admissible H c s ∧ AdmissibleRun H (xstep c s) rest
+
+/-- The abstract events of one executable step. -/
+def eventsOf (c : Cluster) (a : Cl) : XStep → List C01c.Ev
+  | .request i src iss => applyEvents i src (requestOps (absSet c i) iss)
+  | .exchange j i rf =>
+    if (getNode c i).exists_ && !((getNode c j).tracker.getD i none == some (getNode c i).change)
+    then [.exchangeNA j i (a i).A (repairOps c j i rf)] else []
+
+theorem repairOps_skipped (c : Cluster) (j i : Nat) (rf : Bool)
+    (h : ((getNode c i).exists_ && !((getNode c j).tracker.getD i none == some (getNode c i).change)) = false) :
+    repairOps c j i rf = [] := by
+  unfold repairOps
+  cases hex : (getNode c i).exists_ with
+  | false => simp
+  | true =>
+    rw [hex] at h
+    simp only [Bool.true_and, Bool.not_eq_false'] at h
+    simp only [Bool.not_true, Bool.false_eq_true, if_false, h, if_true]
+
+/-- **xstep_refines**: one admissible step of the executable cluster = admissible abstract events
+with the same sets; the abstract cluster stays good. -/
+theorem xstep_refines (H : List Op) (hh : Hist Cluster.F H) (c : Cluster) (a : Cl) (hg : Good Cluster.F H a)
+    (hs : ∀ x, (a x).s = absSet c x) (s : XStep) (hadm : Admissible H c s) :
+    C01c.ValidRun Cluster.F H a (eventsOf c a s) ∧
+    (∀ x, (C01c.run Cluster.F a (eventsOf c a s) x).s = absSet (xstep c s) x) ∧
+    Good Cluster.F H (C01c.run Cluster.F a (eventsOf c a s)) := by
+  have key : C01c.ValidRun Cluster.F H a (eventsOf c a s) ∧
+      (∀ x, (C01c.run Cluster.F a (eventsOf c a s) x).s = absSet (xstep c s) x) := by
+    cases s with
+    | request i src iss =>
+      obtain ⟨hl, hf, hH⟩ := hadm
+      exact applyAt_refines H c a hs i src iss hl hf hH
+    | exchange j i rf =>
+      obtain ⟨hl, hf, hji, hagree⟩ := hadm
+      simp only [eventsOf, xstep]
+      cases hcond : ((getNode c i).exists_ && !((getNode c j).tracker.getD i none == some (getNode c i).change)) with
+      | true =>
+        simp only [if_true]
+        simp only [Bool.and_eq_true, Bool.not_eq_true'] at hcond
+        obtain ⟨hv, hsets⟩ := repair_refines H hh c a hg hs j i rf hl hf hji hagree hcond.1 hcond.2
+        exact ⟨⟨hv, trivial⟩, hsets⟩
+      | false =>
+        simp only [Bool.false_eq_true, if_false]
+        refine ⟨trivial, fun x => ?_⟩
+        rw [repair_sets c j i rf hl hf hji x, repairOps_skipped c j i rf hcond]
+        simp only [C01c.run, List.foldl_nil, applyAll_nil]
+        split
+        · rename_i hx; rw [hx]; exact hs j
+        · exact hs x
+  exact ⟨key.1, key.2, C01c.good_run Cluster.F H hh _ a hg key.1⟩
+
+theorem validRun_append (F : Nat) (H : List Op) (a : Cl) (e1 e2 : List C01c.Ev)
+    (h1 : C01c.ValidRun F H a e1) (h2 : C01c.ValidRun F H (C01c.run F a e1) e2) : C01c.ValidRun F H a (e1 ++ e2) := by
+  induction e1 generalizing a with
+  | nil => exact h2
+  | cons e rest ih => exact ⟨h1.1, ih _ h1.2 h2⟩
+
+/-- **xrun_refines**: every admissible run of the executable cluster model is matched by an admissible
+run of the abstract cluster with equal sets at every node — so whatever `Props/C01.lean` and
+`Props/C01c.lean` prove about the sets of admissible abstract runs holds of the sets the
+executable model computes. -/
+theorem xrun_refines (H : List Op) (hh : Hist Cluster.F H) (steps : List XStep) (c : Cluster) (a : Cl)
+    (hg : Good Cluster.F H a) (hs : ∀ x, (a x).s = absSet c x) (hadm : AdmissibleRun H c steps) :
+    ∃ evs, C01c.ValidRun Cluster.F H a evs ∧ Good Cluster.F H (C01c.run Cluster.F a evs) ∧
+      ∀ x, (C01c.run Cluster.F a evs x).s = absSet (xrun c steps) x := by
+  induction steps generalizing c a with
+  | nil => exact ⟨[], trivial, hg, hs⟩
+  | cons s rest ih =>
+    obtain ⟨hv1, hs1, hg1⟩ := xstep_refines H hh c a hg hs s hadm.1
+    obtain ⟨evs, hv2, hg2, hs2⟩ := ih (xstep c s) _ hg1 hs1 hadm.2
+    refine ⟨eventsOf c a s ++ evs, validRun_append _ H a _ _ hv1 hv2, ?_, ?_⟩
+    · simpa [C01c.run, List.foldl_append] using hg2
+    · intro x
+      have := hs2 x
+      simpa [C01c.run, List.foldl_append, xrun] using this
 
 end Datacake.C01d
